@@ -126,6 +126,8 @@ func main() {
 		os.Exit(cmdCheck(os.Args[2:]))
 	case "replay":
 		os.Exit(cmdReplay(os.Args[2:]))
+	case "exec":
+		os.Exit(cmdExec(os.Args[2:]))
 	default:
 		fmt.Fprintln(os.Stderr, "unknown command")
 		os.Exit(2)
@@ -502,4 +504,64 @@ func cmdReplay(args []string) int {
 		return 0
 	}
 	return 1
+}
+
+// cmdExec runs one harness in the executor in concrete mode under a replay
+// file (debugging / translator validation: must agree with the native run).
+func cmdExec(args []string) int {
+	if len(args) < 1 {
+		fmt.Fprintln(os.Stderr, "usage: gosym exec <replay file>")
+		return 2
+	}
+	b, err := os.ReadFile(args[0])
+	if err != nil {
+		fmt.Fprintln(os.Stderr, err)
+		return 2
+	}
+	var rf replayFile
+	if err := json.Unmarshal(b, &rf); err != nil {
+		fmt.Fprintln(os.Stderr, err)
+		return 2
+	}
+	tn := "quick"
+	if rf.Tier == 1 {
+		tn = "thorough"
+	}
+	r, err := newRunner(tn, true)
+	if err != nil {
+		fmt.Fprintln(os.Stderr, err)
+		return 2
+	}
+	defer r.cleanup()
+	var fn *ssa.Function
+	for _, f := range r.l.harnessesFor(rf.Property) {
+		if f.Name() == rf.Harness {
+			fn = f
+		}
+	}
+	if fn == nil {
+		fmt.Fprintln(os.Stderr, "no such harness", rf.Harness)
+		return 2
+	}
+	solver, err := smt.NewSolver("z3", 60000)
+	if err != nil {
+		fmt.Fprintln(os.Stderr, err)
+		return 2
+	}
+	defer solver.Close()
+	cfg := r.cfg
+	cfg.Concrete = rf.Values
+	if cfg.Concrete == nil {
+		cfg.Concrete = []interp.ReplayValue{}
+	}
+	cfg.Verbose = true
+	if len(args) > 1 && args[1] == "-trace" {
+		cfg.Trace = true
+	}
+	res := r.l.P.RunPath(fn, nil, solver, cfg, nil)
+	fmt.Printf("executor (concrete): outcome=%s msg=%s\nreached=%v\n", res.Outcome, res.Msg, res.Reached)
+	for _, v := range res.Violations {
+		fmt.Printf("violation: %s %s %s\n", v.Kind, v.Label, v.Msg)
+	}
+	return 0
 }
